@@ -115,6 +115,10 @@ impl anstyle_parse::Perform for WinconCapture {
         let mut g = None;
         let mut color_target = ColorTarget::Fg;
         for param in params {
+            if state == State::Underline {
+                // underline styles are sub-parameters (`4:3`), the next parameter is a new attribute
+                state = State::Normal;
+            }
             for value in param {
                 match (state, *value) {
                     (State::Normal, 0) => {
@@ -212,6 +216,7 @@ impl anstyle_parse::Perform for WinconCapture {
                             ColorTarget::Bg => style.bg_color(Some(color.into())),
                             ColorTarget::Underline => style.underline_color(Some(color.into())),
                         };
+                        state = State::Normal;
                         break;
                     }
                     (State::Rgb, b) => match (r, g) {
@@ -228,6 +233,7 @@ impl anstyle_parse::Perform for WinconCapture {
                                 ColorTarget::Bg => style.bg_color(Some(color.into())),
                                 ColorTarget::Underline => style.underline_color(Some(color.into())),
                             };
+                            state = State::Normal;
                             break;
                         }
                     },
